@@ -299,6 +299,10 @@ def _run_pipeline(ctx, case):
 
         cols, comments, source = saved
         t = Tree(len(cols["id"]), source=source, comments=comments, **cols)
+        for k_, v_ in cols.items():
+            # keep the result's own dtypes (the constructor re-casts ids to int32): an operation
+            # that aliases its input only for some dtype must meet that dtype in the next step
+            t.ndata[k_] = np.array(v_, copy=True)
         if not np.all(np.isfinite(t.xyz())):
             ctx.skip("non-finite coordinates reached; pipeline stopped")
             return
